@@ -13,15 +13,7 @@ TECH = 'Lean 4 theorems over an executable model + tables regenerated from /repo
 
 CHECKS = {
     'C01': dict(
-        text='Theorems (all nodes, all annotation sets, over the model of MainTransformer._apply_annotations_param_ret_common / '
-             '_apply_transfer_annotation / array / element-type / callback / closure handling and of GIRWriter._write_parameter/'
-             '_write_return_type/_write_type): every annotation valid at its site (validity phrased through the transformer\'s own '
-             'pointer test) yields the documented attribute value; every invalid one emits a warning and leaves that attribute as '
-             'without it (nullability, transfer, lift to container, callback annotations, return values); written closure/destroy/'
-             'length indices name the referenced parameter or the writer errors; (array length=p) makes p follow the array\'s '
-             'direction and nothing else; frame (_partial: other parameters untouched except length/closure/destroy targets). '
-             'Counterexample theorems pin the places where the unchanged code departs from the statement (known findings). '
-             'Validated only: type-string resolution against namespaces, pass-3 interaction, the real pipeline end to end.',
+        text="Theorems (all nodes, all annotation sets, over the model of _apply_annotations_param_ret_common / _apply_transfer_annotation / array / element-type / callback / closure handling, pass 3 and GIRWriter._write_parameter/_write_return_type/_write_type): every annotation valid at its site (validity phrased through the transformer's own pointer test) yields the documented attribute value, (not optional) and (not nullable) overriding as documented; every invalid one — unknown transfer and scope words included — emits a warning and leaves that attribute as without it (nullability, transfer, lift to container, scope, callback annotations, return values); after the pass-3 reference step every closure/destroy name left has an index, so the writer cannot raise; written closure/destroy/length indices name the referenced parameter; (array length=p) makes p follow the array's direction and nothing else; frame (_partial: parts without (destroy)). Four counterexample theorems pin where the unchanged code still departs from the statement (4 known findings: the pointer test on by-value non-basic types and pointers to basic aliases, and pass-3 autodetection overriding explicit callback annotations). Validated only: type-string resolution against namespaces; the real pipeline end to end, incl. (type) overrides.",
         note='Modelled not verified: the C lexer (inputs start at the symbol stream), namespace lookup of (type)/(element-type) strings (parameter of the model).',
         design='Part B C01'),
     'C02': dict(
@@ -35,40 +27,15 @@ CHECKS = {
         note='Modelled not verified: the C lexer; lookup_typenode results are a parameter (TyInfo).',
         design='Part B C02'),
     'C03': dict(
-        text='Theorems: frame — the annotation result of a node depends only on the blocks stored under its own finite key set '
-             '(name, Class:prop, Class::sig, Struct.field, invoker), so a block can never affect an unrelated element (all block maps, '
-             'all nodes, both virtual-method phases); key sets of distinct targets are disjoint; one mapping theorem per '
-             'annotation/tag (skip, Since (`_partial`: kinds that write a version), Deprecated, Stability, attributes, '
-             'constructor/method roles, set/get-property, finish/sync/async, emitter, ref/unref/copy/free/get-/set-value-func, value); '
-             'rename-to: shadows/shadowed-by symmetric on the AST for any number of competing annotations, written pair consistent '
-             'for chains in either order (`_partial`: excludes only self-rename, witnessed); an inferred getter is the one the '
-             'property names; a vfunc without its own block inherits exactly its invoker\'s. Source statements of the rename and '
-             'accessor functions and the writer guards are pinned per run. Validated only: whole-namespace scans with near-colliding '
-             'names (presence on target, absence elsewhere by rescan), emitter validation.',
+        text="Theorems (34, all full statements): frame — the annotation result of a node depends only on the blocks stored under its own finite key set (name, Class:prop, Class::sig, Struct.field, invoker; a vfunc with its own block drops the invoker's keys), so a block can never affect an unrelated element (all block maps, all nodes, both virtual-method phases); key sets of distinct targets are disjoint; one mapping theorem per annotation/tag (skip, Since, Deprecated, Stability, attributes, constructor/method roles, set/get-property, finish/sync/async, emitter, ref/unref/copy/free/get-/set-value-func, value); rename-to: shadows/shadowed-by symmetric on the AST and the written pair consistent for any number of competing annotations, chains in either order and self-rename included; an inferred getter is the one the property names; a vfunc without its own block inherits exactly its invoker's, one with its own block only takes the invoker's name, (virtual) counts only on methods. Source statements of the rename, accessor and virtual functions and the writer guards are pinned per run. Validated only: whole-namespace scans with near-colliding names (presence on target, absence elsewhere by rescan), emitter validation.",
         note='Modelled not verified: the C lexer; the comment parser is C10/C11\'s subject (blocks are inputs here); IntrospectablePass emitter validation (judged on the real GIR only).',
         design='Part B C03'),
     'C04': dict(
-        text='Theorems (all strings / all namespaces): prefix stripping (current namespace wins over includes, first matching prefix, '
-             '`_` separator, leading underscore excluded, foreign prefix left out); _split_uscored_by_type returns the LONGEST '
-             '`_`-boundary prefix registered and the exact remainder, none iff no boundary prefix is registered; _is_method soundness '
-             '(first parameter is a class/interface/record/union/boxed of this namespace and annotated or carrying its prefix); '
-             'constructor soundness and method/constructor naming as _partial theorems whose extra hypotheses exclude exactly two '
-             'confirmed defect classes (witness theorems, known findings); uniqueness invariant of the namespace container under '
-             'append/float/remove along the pipeline model; CamelCase to underscores incl. the acronym rule. Regex shapes are pinned per run. '
-             'Validated only: re.sub semantics, the whole pairing on generated declaration sets x prefix configurations.',
+        text='Theorems (all strings / all namespaces): prefix stripping (current namespace wins over includes, first matching prefix, `_` separator, leading underscore excluded, foreign prefix left out); every emitted function/constant carries a public name the current namespace claims (pipeline-wide invariant); _split_uscored_by_type returns the LONGEST `_`-boundary prefix registered and the exact remainder; the symbol prefix of a registered type is its get-type symbol minus exactly the final _get_type/_get_gtype; _is_method soundness and ownership; constructor soundness in full (origin carries the prefix, return type is the origin or an ancestor); static functions hang only on the longest type prefix; constructor naming incl. annotated constructors; method naming `_partial` + witness for the one remaining known finding (str.find leftmost occurrence); uniqueness invariant of the namespace container under append/float/remove; CamelCase to underscores incl. the acronym rule. Regex shapes and the dump-parser split are pinned per run. Validated only: re.sub semantics, the whole pairing on generated declaration sets x prefix configurations x registered types.',
         note='Modelled not verified: the C lexer, CPython re/str (re-expressed, compared each run).',
         design='Part B C04'),
     'C05': dict(
-        text='Theorems over the model of IntrospectablePass.validate (all namespaces): the propagation of non-introspectability is a '
-             'terminating fixed point (a round only clears flags; exit within count+1 rounds); after validate every alias, callable '
-             '(top-level or nested), typed field, property and field holding an anonymous callback that is left introspectable refers '
-             'only to leaves that are foreign, an allowed fundamental or a still-introspectable non-skipped node — never unresolved, '
-             'never varargs (C05_closure, C05_fields_props); no unresolved/varargs/va_list/long long/long double at any depth, skipped '
-             'values included (C05_exotic, full); transfer, scope and element type stated for values not marked (skip) (C05_bindable); '
-             'setter/getter and set-/get-property stay in agreement through the property analysis; written closure/destroy/length '
-             'indices are in range and name the requested parameter or the writer raises. Witness theorems keep the inputs of the '
-             'repaired defects as regressions. The executable predicate girWellFormed (Lean) is evaluated on every GIR the real pipeline '
-             'emits in the run and on every shipped/expected GIR: that is the failing-input search.',
+        text='Theorems over the model of IntrospectablePass.validate (all namespaces): the propagation of non-introspectability is a terminating fixed point; after validate every alias, callable (top-level or nested), typed field, property and field holding an anonymous callback that is left introspectable refers only to leaves that are foreign, an allowed fundamental or a still-introspectable non-skipped node — never unresolved, never varargs (C05_closure, C05_fields_props); no unresolved/varargs/va_list/long long/long double at any depth, skipped values included (C05_exotic, full); transfer, scope and element type stated for values not marked (skip) (C05_bindable); setter/getter and set-/get-property stay in agreement through the property analysis; written closure/destroy/length indices are in range and name the requested parameter or the writer raises. Witness theorems and examples keep the inputs of the repaired defects as regressions. The executable predicate girWellFormed (Lean) is evaluated on every GIR the real pipeline emits in the run (incl. the bare-structure return family and included namespaces with hidden definitions) and on every shipped/expected GIR: that is the failing-input search. No known finding.',
         note='Modelled not verified: earlier passes establish the AST invariants assumed (agreement on entry is _pair_property_accessors\' job, judged on the real output only); the C lexer. Scope decision: values marked (skip) are exempt from the three "states ..." clauses in the oracle (bindings ignore them; the pass returns early on them by design), counted as oracle:skipex.',
         design='Part B C05'),
     'C06': dict(
@@ -83,33 +50,15 @@ CHECKS = {
         note='Modelled not verified: GMarkup, the GIR->node->blob mapping (validated by decode-and-compare), the hand-written GLib declarations (glibshim).',
         design='Part B C06'),
     'C07': dict(
-        text='Theorems for ALL values of the modelled fragment (types, parameters, return values, everything written through '
-             '_write_callable incl. docs, attributes, positions, version/deprecated/stability): vocabulary — every attribute/child/text '
-             'the writer can emit is read by the reader (tables re-extracted from girwriter.py/girparser.py each run; listed exceptions and '
-             'one defect); parse(write m) = canon m and = m for canonical m; write(parse(write m)) = write m. `_partial` names: hypotheses '
-             'exclude exactly the confirmed reader defects (witness theorems; known findings). Whole-file byte identity for every node '
-             'kind is VALIDATED on the real GIRWriter/GIRParser (w1=w2=w3 and an AST-equality walk) on generated namespaces and every '
-             'shipped/expected GIR.',
+        text="Theorems for ALL well-formed values of the modelled fragment (types, parameters, return values, everything written through _write_callable incl. signals, docs, attributes, positions, version/deprecated/stability, and record/union member lists with callbacks and anonymous members): vocabulary — every attribute/child/text the writer can emit is read by the reader (C07_vocab, full; tables re-extracted from girwriter.py/girparser.py each run); parse(write m) = canon m and = m for canonical m (type, param, callable, members); write(parse(write m)) = write m (C07_fixpoint); the reader's per-document header state is reset by parse_tree, so the result of a parse depends only on its document whatever was read before (C07_history_independent, pinned to the statements of __init__/parse_tree). No hypothesis excludes an input the scanner can produce. Whole-file byte identity for every node kind is VALIDATED on the real GIRWriter/GIRParser (w1=w2=w3, an AST-equality walk, and histories of several parses on one reader) on generated namespaces and every shipped/expected GIR.",
         note='Modelled not verified: ElementTree, int() on non-ASCII, the text level (C20).',
         design='Part B C07'),
     'C08': dict(
-        text='Theorems (all member lists): the model of GI_ALIGN is the least multiple of the alignment not below n; the struct and union '
-             'loops of giroffsets.c compute exactly the declarative System V rule (which has a unique solution); results are sane '
-             '(aligned, ordered, non-overlapping, inside the size) and closed under nesting/arrays; a member of unknown size forces '
-             'size=alignment=-1 and the unknown marker from that member on, also as stored in the blobs; enum storage can represent every '
-             'member (`_partial` + witness for the negative-and-above-INT32_MAX class); stored 16-bit field offsets (`C08_stored` + witness). '
-             'Leaf sizes come from a probe of gi_type_tag_get_ffi_type compiled each run. NOT provable, validated each run against gcc: '
-             'that the declarative rule is what the C compiler does here.',
+        text='Theorems (all member lists; all full statements): the model of GI_ALIGN is the least multiple of the alignment not below n; the struct and union loops of giroffsets.c compute exactly the declarative System V rule (which has a unique solution); results are sane (aligned, ordered, non-overlapping, inside the size) and closed under nesting/arrays; classes, interfaces and boxed are laid out like records; an inline callback member is pointer-sized in every container; an unknown-size member (incl. a flexible array member) forces size=alignment=-1 and the unknown marker from that member on, also as stored; a stored field offset is exact below 65535 and the unknown marker otherwise — never a wrong value (C08_stored); enum storage represents every member for all ranges inside the ValueBlob range (C08_enum). Leaf sizes come from a probe of gi_type_tag_get_ffi_type compiled each run; parser decisions (is_pointer of array fields, inline callbacks) are pinned. NOT provable, validated each run against gcc: that the declarative rule is what the C compiler does here. One known finding (a non-introspectable by-value field is sized as a pointer).',
         note='Modelled not verified: gcc as the ABI oracle; the hand-written GLib declarations; libffi type table (measured).',
         design='Part B C08'),
     'C09': dict(
-        text='Theorems: for all section counts, sizes and embedded-callback positions and all in-range indices the accessor offset '
-             'arithmetic of giobjectinfo.c/giinterfaceinfo.c/gistructinfo.c/giunioninfo.c/gienuminfo.c/gicallableinfo.c equals the '
-             'sequential-layout position of the i-th member of that section (blob sizes from the table measured each run); attribute '
-             'find-first and iteration return exactly the node\'s attributes for every choice bsearch may make on the sorted table '
-             '(glibc bsearch is one); simple/complex type word decoding; the deprecated accessor reads the stored flag for every '
-             'entry kind (decide over the switch of g_base_info_is_deprecated regenerated from the source each run). '
-             'Validated only: a C walker over the public API and g-ir-generate\'s XML, both compared with the source GIR.',
+        text="Theorems (19, all full statements): for all section counts, sizes and embedded-callback positions and all in-range indices the accessor offset arithmetic of giobjectinfo.c/giinterfaceinfo.c/gistructinfo.c/giunioninfo.c/gienuminfo.c/gicallableinfo.c equals the sequential-layout position of the i-th member of that section (blob sizes from the table measured each run); attribute find-first and iteration return exactly the node's attributes for every choice bsearch may make on the sorted table (glibc bsearch is one); simple/complex type word decoding; the deprecated accessor reads the stored flag for every entry kind and the copy/free-function accessors read the stored string for records and boxed (decide over the switch of g_base_info_is_deprecated and the GI_IS_STRUCT_INFO macro regenerated from the source each run). Validated only: a C walker over the public API and g-ir-generate's XML, both compared with the source GIR. No known finding.",
         note='Modelled not verified: girwriter.c (typelib->GIR text), memory safety, the hand-written GLib declarations.',
         design='Part B C09'),
     'C10': dict(
@@ -150,12 +99,7 @@ CHECKS = {
         note='Modelled not verified: gdump.c and a real GObject library (inputs start at the dump XML); the C lexer.',
         design='Part B C12'),
     'C13': dict(
-        text='Theorems: for >=2 members none a word-prefix of another the common prefix is the shared leading whole words and member names '
-             'are lower(ident minus it), independent of member order (all permutations); with no shared word or <2 members names are '
-             'lower(ident minus namespace prefix) and an enum that cannot be named is refused, never given garbage names; members keep '
-             'declaration order, c:identifier and exact decimal value (toInt(repr v)=v for all integers); constants: strings verbatim, '
-             'booleans true/false, signed as written, unsigned of width w in [0,2^w) congruent mod 2^w (`_partial`: excludes exactly '
-             'platform-width unsigned types and two-typedef chains — witness theorems, known findings).',
+        text='Theorems: for >=2 members none a word-prefix of another the common prefix is the shared leading whole words and member names are lower(ident minus it), independent of member order (all permutations); with no shared word or <2 members names are lower(ident minus namespace prefix) and an enum that cannot be named is refused, never given garbage names; members keep declaration order, c:identifier and exact decimal value; constants: declared c:type kept, strings verbatim, booleans true/false, signed as written, unsigned of width w in [0,2^w) congruent mod 2^w through typedef chains of ANY length (C13_const_chain; resolve_aliases mirrored with its seen-guard) — `_partial` only for the platform-width types gulong/gsize/guintptr (witness theorem, the one known finding).',
         note='Modelled not verified: double constants (validated only); the C lexer.',
         design='Part B C13'),
     'C14': dict(
@@ -187,31 +131,15 @@ CHECKS = {
         note='Modelled not verified: GMarkup; the node->blob mapping (C06). The tie between number-coded and string tables is checked by the compiled driver each run (kernel evaluation of string literals is too slow), only first rows are pinned in the kernel.',
         design='Part B C15'),
     'C16': dict(
-        text='Theorems: every order the writer imposes (sorted(...), nscmp) is a function of the set of siblings — invariant under every '
-             'permutation given pairwise distinct keys; get_main_position is a function of the position SET; typedef-before-struct and '
-             'struct-before-typedef build the same record; the block dictionary is independent of block and file order for distinct '
-             'identifiers (duplicates are never silent); decide theorems pin the sort sites, unsorted emissions and set iterations of '
-             'the sources (regenerated each run). Determinism across processes, hash seeds and cache histories is a runtime fact: '
-             'validated metamorphically on the real pipeline (fresh subprocesses under several PYTHONHASHSEEDs, permuted inputs, cold/warm cache).',
+        text='Theorems: every order the writer imposes (sorted(...), nscmp) is a function of the set of siblings — invariant under every permutation given pairwise distinct keys; get_main_position is a function of the position SET; typedef-before-struct and struct-before-typedef build the same record; the block dictionary is independent of block and file order for distinct identifiers (duplicates are never silent); the order of _parsed_includes, hence C-type resolution through transitive includes, is independent of set iteration order (C16_parsed_includes_perm, full since the sorted iteration); the introspectable fixed point is reached, is the greatest one and is independent of the walk order (C16_fixpoint_*); decide theorems pin the sort sites, unsorted emissions and set iterations of the sources (regenerated each run). Determinism across processes, hash seeds and cache histories is a runtime fact: validated metamorphically on the real pipeline (fresh subprocesses under several PYTHONHASHSEEDs, permuted blocks/files/dump entries, declare-before-use declaration shuffles judged byte for byte, cold/warm/cross-seed cache with counted hits). No known finding.',
         note='Modelled not verified: CPython set/dict iteration (set = arbitrary permutation, dict = insertion order).',
         design='Part B C16'),
     'C17': dict(
-        text='Theorems: version comparison is numeric major.minor order and a total preorder; exact-version require loads '
-             'ns-v.typelib from the first directory having it, else not-found; versionless require loads a maximal version and among those '
-             'the earliest directory; later prepends precede earlier ones; invariant over ALL histories of require/require_private/'
-             'load/queries (`_partial`: excludes exactly three witnessed defect classes): one version per namespace, every recorded '
-             'dependency loaded at the recorded version, lazy/eager tables disjoint, reports equal the files loaded; conflict and '
-             'mismatch behaviour. Validated: generated histories executed by a C driver on the public API over real typelibs.',
+        text='Theorems (all full statements; only hypothesis: recorded dependencies are acyclic): version comparison is numeric major.minor order and a total preorder; exact-version require loads ns-v.typelib from the first directory having it, else not-found; versionless require loads a maximal version and among those the earliest directory; a file whose header names another namespace or version than its file name is refused in both cases; later prepends precede earlier ones; require_private searches only the private directory; enumerate_versions; C17_inv over ALL histories of require/require_private/load/queries incl. lazy loads and lazy->eager promotion: one version per namespace, every recorded dependency loaded at the recorded version, lazy/eager tables disjoint, reports equal the files loaded, transitive dependencies exactly the reachable closure; C17_conflict_mismatch (9 clauses): conflict for eagerly or lazily loaded namespaces whatever the flags, same typelib returned on agreement. Validated: generated histories executed by a C driver on the public API over real typelibs. No known finding.',
         note='Modelled not verified: OS directory order (a directory is a set), GHashTable, strtol; cycles are invalid input.',
         design='Part B C17'),
     'C18': dict(
-        text='Theorems over a step model with one atomic step per system call of cachestore.py, for EVERY history (any number of '
-             'processes, any interleaving, source modifications, a crash before any step): no load/store step raises; a load returns '
-             'nothing or a complete parse; a returned entry is never older than the source mtime read in the same load; torn entries are '
-             'discarded; after any crash only complete entries, strict prefixes or temp files remain; a version change discards all '
-             'entries. The main freshness clause is proved as C18_fresh_partial under exactly the negation of two witnessed defect '
-             'classes (write-time stamping, equal mtimes) and same-device rename; cross-device witnesses are theorems too (known '
-             'findings). Validated: the real CacheStore under a controlled scheduler on a real directory vs the model.',
+        text='Theorems over a step model with one atomic step per system call of cachestore.py and its call site, for EVERY history (any number of processes, any interleaving, source modifications and replacements, a crash before any step): no load/store/purge step raises (no device hypothesis: the temporary file lives in the cache directory and is published by rename); a load returns nothing or a complete parse; what a load returns is what one single store wrote, and the entry carries exactly the mtime the source has now; publication is atomic; a store whose temp file was purged publishes nothing; torn entries are discarded; after any crash only complete entries or unpublished temp files remain; a version change discards all entries. The main freshness clause (C18_fresh_partial) is proved under the single hypothesis that source versions carry pairwise distinct mtimes, with a witness that it cannot be dropped (the one known finding: two versions with one mtime and a read in between). Validated: the real CacheStore and Transformer._parse_include under a controlled scheduler on a real directory vs the model; replays on real file systems in every tier.',
         note='Modelled not verified: POSIX semantics (atomic rename, open file survives unlink, stat returns the last mtime set), pickle.',
         design='Part B C18'),
     'C19': dict(
